@@ -457,6 +457,8 @@ def signature(t, hist, status, prop, kind, detail):
         return sig
     mech = mech_class(t, hist, status)
     sig['mech'] = mech
+    if prop == 'C16' and 'ic' in detail:
+        sig['intelligent_choice'] = 'on' if True in detail['ic'] else 'off'
     if mech == 'failed-op':
         sig['failed'] = failed_pairs(hist, status)
     if detail.get('site'):
